@@ -332,6 +332,16 @@ def r4_constructors(chk, repo):
             chk.check(ok and rem, "C07.R4", f, lp, f"{q}: the loop splits the shrinking remainder but does not walk np.diff(<get_splits result>): absolute indices applied to the remainder cut at the wrong rows or fail on valid input",
                       site_text=f"{q}: for index in np.diff(split_indices) over the remainder", site={"function": q, "rule": "relative split indices"})
             shapes[q] = norm(it).split("(")[0]
+    lf = repo.func("StorageBackend._read_format_split_chunk", COMMON)
+    lcfg = cfg_of(lf)
+    lloops = [n for n in walk_body(lf.node) if isinstance(n, ast.For) and any(isinstance(c.func, ast.Attribute) and c.func.attr == "split" for st in n.body for c in calls_in(st))]
+    if lloops:
+        sp = [st for st in lloops[0].body if isinstance(st, ast.Assign) and isinstance(st.targets[0], ast.Tuple)]
+        REM = norm(sp[0].targets[0].elts[1]) if sp else None
+        ys = [n for n in lcfg.stmt_nodes() if isinstance(n.stmt, ast.Expr) and isinstance(n.stmt.value, ast.Yield) and REM and norm(n.stmt.value.value) == REM]
+        ln = lcfg.node_of(lloops[0])
+        ok, _p = lcfg.every_path([ln], [lcfg.exit_return], lambda n: n in ys and n.stmt not in list(ast.walk(lloops[0])), "n")
+        chk.check(ok, "C07.R4", lf, lloops[0], "after the split loop the remainder is not yielded on every path (e.g. only `if len(chunk)`): an empty remainder still carries a time range, dropping it leaves a gap or shortens the stream", site_text="_read_format_split_chunk: remainder yielded unconditionally after the loop", site={"function": lf.qualname, "rule": "remainder yielded"})
     chk.check(len(set(shapes.values())) <= 1, "C07.R4", "strax/chunk.py", None, f"the save-side and load-side rechunk loops disagree on how they walk the split indices: {shapes}", site_text="rechunk loops agree (sibling check)")
     rr = repo.func("Rechunker.receive", CHUNK)
     cc = [c for c in calls_in(rr.node) if (call_name(c) or "").endswith("Chunk.concatenate")]
@@ -455,6 +465,8 @@ def r7_presence_tests(chk, repo):
 
 
 WITNESSES = [
+    W("empty remainder dropped by rechunk on load", "C07.R4", COMMON,
+      "yield _chunk\n            yield chunk", "yield _chunk\n            if len(chunk):\n                yield chunk"),
     W("load-side rechunk loop uses absolute indices", "C07.R4", COMMON,
       "for index in np.diff(split_indices):\n                _chunk, chunk = chunk.split(\n                    t=chunk.data[\"time\"][index] - int(strax.DEFAULT_CHUNK_SPLIT_NS // 2),", "for index in split_indices[1:]:\n                _chunk, chunk = chunk.split(\n                    t=chunk.data[\"time\"][index] - int(strax.DEFAULT_CHUNK_SPLIT_NS // 2),"),
     W("rechunker cache tested by truth value", "C07.R7", CHUNK,
